@@ -7,6 +7,7 @@ import (
 	shared_config "lunar/shared-model/config"
 	"lunar/toolkit-core/client"
 	context_manager "lunar/toolkit-core/context-manager"
+	"lunar/toolkit-core/urltree"
 	"net/http"
 	"regexp"
 	"strings"
@@ -56,7 +57,7 @@ var (
 	haproxyReqCaptureFormAll    = "http://localhost:" + haproxyManagePort + "/capture_req_all"
 )
 
-var regexToFindPathParameters = regexp.MustCompile(`/\{[a-zA-Z0-9-_]+\}`)
+var regexToFindPathParameters = regexp.MustCompile(`^/\{[a-zA-Z0-9-_]+\}$`)
 
 type HAProxyEndpointData struct {
 	Endpoint     string
@@ -133,26 +134,20 @@ func WaitForProxyHealthcheck() error {
 	return client.WaitForHealthcheck(clock, &retryConfig, &healthcheckConfig)
 }
 
+// HaproxyEndpointFormat builds the expression the proxy evaluates, as an
+// unanchored regular expression over "METHOD:::host/path", to decide whether
+// a transaction is handed to the engine. It is built from the URL parts the
+// URL tree matches on, so that every URL the engine matches for `url` is
+// matched by the expression; literal parts (and the method) are quoted so
+// that their characters only match themselves.
 func HaproxyEndpointFormat(
 	method, url string,
 	requirements *stream_types.ProcessorRequirement,
 ) *HAProxyEndpointData {
 	log.Trace().Msgf("Original URL: %v", url)
-	url = strings.ReplaceAll(url, ".", `\.`)
-	formattedURL := url
-	wildcardLiteral := "/*"
-	var hasWildcard bool
-	if strings.HasSuffix(formattedURL, wildcardLiteral) {
-		hasWildcard = true
-		formattedURL = strings.TrimSuffix(formattedURL, wildcardLiteral)
-		formattedURL += RegexToReplaceWildcard
-	}
-	formattedURL = regexToFindPathParameters.ReplaceAllString(
-		formattedURL,
-		RegexToReplacePathParameters,
-	)
+	formattedURL, hasWildcard := formatURLParts(urltree.SplitURL(url))
 	log.Trace().Msgf("Formatted URL: %v", formattedURL)
-	result := strings.Join([]string{method, formattedURL}, delimiter)
+	result := strings.Join([]string{regexp.QuoteMeta(method), formattedURL}, delimiter)
 	if !hasWildcard {
 		result += "$"
 	}
@@ -160,6 +155,36 @@ func HaproxyEndpointFormat(
 		Endpoint:     result,
 		Requirements: requirements,
 	}
+}
+
+func formatURLParts(urlParts []urltree.URLPart) (string, bool) {
+	var formattedURL strings.Builder
+	hasWildcard := false
+	for index, urlPart := range urlParts {
+		isLastPart := index == len(urlParts)-1
+		if urlPart.Value == urltree.Wildcard && isLastPart && !urlPart.IsPartOfHost {
+			hasWildcard = true
+			formattedURL.WriteString(RegexToReplaceWildcard)
+			continue
+		}
+		if !urlPart.IsPartOfHost && regexToFindPathParameters.MatchString("/"+urlPart.Value) {
+			formattedURL.WriteString(RegexToReplacePathParameters)
+			continue
+		}
+		if index > 0 {
+			formattedURL.WriteString(partDelimiter(urlPart))
+		}
+		formattedURL.WriteString(regexp.QuoteMeta(urlPart.Value))
+	}
+	return formattedURL.String(), hasWildcard
+}
+
+// partDelimiter is what precedes a URL part in the expression
+func partDelimiter(urlPart urltree.URLPart) string {
+	if urlPart.IsPartOfHost {
+		return `\.`
+	}
+	return "/"
 }
 
 func ManageHAProxyEndpoints(haproxyEndpoints *HAProxyEndpointsRequest) error {
